@@ -8,6 +8,7 @@ from .. import iterlab
 from ..core import Clause, Violation
 
 META = {
+    "thorough_scale": 3,
     "level": "exploration",
     "rule": (
         "Model-based testing: generated set-ups (definite 2..7 frames / Sub class / INDEFINITE stream of 0..8 "
